@@ -267,7 +267,7 @@ func c01Run(c c01Case) vh.Result {
 	res := runC01(c)
 	b, _ := json.Marshal(c.Plan)
 	s := string(b)
-	meta := strings.ContainsAny(s, "<>&'") || strings.Contains(s, `\"`) || strings.Contains(s, `<`) || strings.Contains(s, `&`) || strings.Contains(s, `>`)
+	meta := strings.Contains(s, "'") || strings.Contains(s, `\"`) || strings.Contains(s, `\u003c`) || strings.Contains(s, `\u0026`) || strings.Contains(s, `\u003e`)
 	nested := strings.Count(s, `"T":`)
 	res.NonTrivial = meta || nested >= 1 || strings.Contains(s, `"Nodes":[{`)
 	if meta {
